@@ -1,0 +1,177 @@
+//go:build verif
+
+// Contracts for package cmd (comment-only; read by /verif/vf, see /verif/DESIGN.md).
+// Every command closure runs on the package-level client built by init() in root.go; clientWF is what init()
+// establishes for a repository that loaded, and what every closure may rely on.
+
+package cmd
+
+//@ pred clientWF() := client != nil && client.Conf != nil && client.Idx != nil && client.Head != nil && client.Refs != nil && client.Ignore != nil && gLogger != nil
+//@     && store.wfIndex(client.Idx) && store.wfRefs(client.Refs) && store.wfConfig(client.Conf)
+//@     && (client.Head.Commit != nil ==> client.Head.Commit.Object != nil && len(client.Head.Commit.Tree) >= 20)
+//@     && (client.Head.Commit == nil ==> forall i int :: 0 <= i && i < len(client.Refs.Heads) ==> client.Refs.Heads[i].Name != client.Head.Reference)
+
+//@ func addCmd.PreRunE
+//@   returns err
+//@   pure
+//@   requires client != nil
+
+//@ func addCmd.RunE
+//@   requires clientWF()
+//@   requires [args] forall i int :: 0 <= i && i < len(args) ==> true
+
+//@ func branchCmd.PreRunE
+//@   returns err
+//@   pure
+//@   requires client != nil
+
+//@ func branchCmd.RunE
+//@   requires clientWF()
+//@   requires [args] forall i int :: 0 <= i && i < len(args) ==> true
+
+//@ func catFileCmd.PreRunE
+//@   returns err
+//@   pure
+//@   requires client != nil
+
+//@ func catFileCmd.RunE
+//@   requires clientWF()
+//@   requires [args] forall i int :: 0 <= i && i < len(args) ==> true
+
+//@ func commitCmd.PreRunE
+//@   returns err
+//@   pure
+//@   requires client != nil
+
+//@ func commitCmd.RunE
+//@   requires clientWF()
+//@   requires [args] forall i int :: 0 <= i && i < len(args) ==> true
+
+//@ func configCmd.PreRunE
+//@   returns err
+//@   pure
+//@   requires client != nil
+
+//@ func configCmd.RunE
+//@   requires clientWF()
+//@   requires [args] forall i int :: 0 <= i && i < len(args) ==> true
+
+//@ func hashObjectCmd.PreRunE
+//@   returns err
+//@   pure
+//@   requires client != nil
+
+//@ func hashObjectCmd.RunE
+//@   requires clientWF()
+//@   requires [args] forall i int :: 0 <= i && i < len(args) ==> true
+
+//@ func logCmd.PreRunE
+//@   returns err
+//@   pure
+//@   requires client != nil
+
+//@ func logCmd.RunE
+//@   requires clientWF()
+//@   requires [args] forall i int :: 0 <= i && i < len(args) ==> true
+
+//@ func lsFilesCmd.PreRunE
+//@   returns err
+//@   pure
+//@   requires client != nil
+
+//@ func lsFilesCmd.Run
+//@   requires clientWF()
+//@   requires [args] forall i int :: 0 <= i && i < len(args) ==> true
+
+//@ func reflogCmd.PreRunE
+//@   returns err
+//@   pure
+//@   requires client != nil
+
+//@ func reflogCmd.RunE
+//@   requires clientWF()
+//@   requires [args] forall i int :: 0 <= i && i < len(args) ==> true
+
+//@ func resetCmd.PreRunE
+//@   returns err
+//@   pure
+//@   requires client != nil
+
+//@ func resetCmd.RunE
+//@   requires clientWF()
+//@   requires [args] forall i int :: 0 <= i && i < len(args) ==> true
+
+//@ func restoreCmd.PreRunE
+//@   returns err
+//@   pure
+//@   requires client != nil
+
+//@ func restoreCmd.RunE
+//@   requires clientWF()
+//@   requires [args] forall i int :: 0 <= i && i < len(args) ==> true
+
+//@ func revParseCmd.PreRunE
+//@   returns err
+//@   pure
+//@   requires client != nil
+
+//@ func revParseCmd.RunE
+//@   requires clientWF()
+//@   requires [args] forall i int :: 0 <= i && i < len(args) ==> true
+
+//@ func rmCmd.PreRunE
+//@   returns err
+//@   pure
+//@   requires client != nil
+
+//@ func rmCmd.RunE
+//@   requires clientWF()
+//@   requires [args] forall i int :: 0 <= i && i < len(args) ==> true
+
+//@ func statusCmd.PreRunE
+//@   returns err
+//@   pure
+//@   requires client != nil
+
+//@ func statusCmd.RunE
+//@   requires clientWF()
+//@   requires [args] forall i int :: 0 <= i && i < len(args) ==> true
+
+//@ func switchCmd.PreRunE
+//@   returns err
+//@   pure
+//@   requires client != nil
+
+//@ func switchCmd.RunE
+//@   requires clientWF()
+//@   requires [args] forall i int :: 0 <= i && i < len(args) ==> true
+
+//@ func updateRefCmd.PreRunE
+//@   returns err
+//@   pure
+//@   requires client != nil
+
+//@ func updateRefCmd.RunE
+//@   requires clientWF()
+//@   requires [args] forall i int :: 0 <= i && i < len(args) ==> true
+
+//@ func writeTreeCmd.PreRunE
+//@   returns err
+//@   pure
+//@   requires client != nil
+
+//@ func writeTreeCmd.RunE
+//@   requires clientWF()
+//@   requires [args] forall i int :: 0 <= i && i < len(args) ==> true
+
+//@ func initCmd.PreRunE
+//@   returns err
+//@   pure
+//@   requires client != nil
+
+//@ func initCmd.RunE
+//@   returns err
+
+//@ func rootCmd.RunE
+//@   returns err
+//@   requires cmd != nil
